@@ -5,9 +5,10 @@
    truth table for every valuation that cannot tell identically rendered operands apart (all
    valuations when renderings identify operands); a relation other than AND / OR is refused with
    TypeError. Without the rendering proviso the truth table can change: dedup_truth_refuted is the
-   known finding recorded in known_findings.txt. "Operand order unchanged" is decided by the
-   reference implementation in the oracle and by the correspondence. *)
-Require Import Model.Base Model.Expr Model.Simplify Model.Licensing Proofs.Dedup.
+   known finding recorded in known_findings.txt. Operand order: at every node the renderings of the
+   operands kept are the renderings of the (deduplicated) operands in the order of their first
+   occurrence, each once; a node left with one operand is replaced by it. *)
+Require Import Model.Base Model.Expr Model.Simplify Model.Licensing Proofs.Dedup Proofs.DedupOrder.
 
 Theorem C09_dedup_total : forall e, wf e = true -> exists e', dedup e = Ok e' /\ deduped e'.
 Proof. exact dedup_total. Qed.
@@ -33,3 +34,19 @@ Print Assumptions C09_dedup_truth_refuted.
 Theorem C09_combine_refuses : forall O l u, l <> [] -> combine_texts O l RelBad u = TypeErr.
 Proof. exact combine_refuses. Qed.
 Print Assumptions C09_combine_refuses.
+
+Theorem C09_first_occurrence_order : forall xs,
+  map render (uniq_by_str xs) = ordered_unique str_eqb [] (map render xs).
+Proof. exact uniq_order. Qed.
+Print Assumptions C09_first_occurrence_order.
+
+Theorem C09_kept_operands_are_operands : forall xs y, In y (uniq_by_str xs) -> In y xs.
+Proof. exact uniq_members. Qed.
+Print Assumptions C09_kept_operands_are_operands.
+
+Theorem C09_node_order : forall o xs e', dedup (mk o xs) = Ok e' ->
+  exists ys, dedup_children xs = Ok ys /\
+             map render (uniq_by_str ys) = ordered_unique str_eqb [] (map render ys) /\
+             (uniq_by_str ys = [e'] \/ e' = mk o (uniq_by_str ys)).
+Proof. exact dedup_node_order. Qed.
+Print Assumptions C09_node_order.
